@@ -6,10 +6,26 @@ Open Scope Z_scope.
 
 
 Lemma inv4_ACnOr s s' : forall i, Inv1 s -> Inv2 s -> Inv3 s -> Inv4 s -> stepF s (ACnOr i) = Some s' -> Inv4 s'.
-Proof. intros i. intro4. step4 Ipl H. all: show4. Qed.
+Proof.
+  intros i. intro4. step_inv H; pre Ipl; constructor.
+  2: { (* w_can for the new canceller: if the bit was clear the slot is still registered with the Cancel and
+          he is about to take it from there; if it was set, whoever was on his way still is *)
+    unfold un_taking, cn_taking, cn_tco in *. cbn; rw; cbn. intros Hsl _.
+    destruct (cbit s) eqn:Cbit.
+    - specialize (Wc Hsl eq_refl).
+      destruct (kp s); auto; (destruct Wc as [W|(W1 & W2)]; [left | right; split; [exact W1|]]; ex4).
+    - specialize (Wr Hsl eq_refl).
+      destruct (kp s); auto; right; (split; [exact Wr|]); ex4. }
+  all: solve [cl4].
+Qed.
 
 Lemma inv4_ACnTakeCo s s' : forall i, Inv1 s -> Inv2 s -> Inv3 s -> Inv4 s -> stepF s (ACnTakeCo i) = Some s' -> Inv4 s'.
-Proof. intros i. intro4. step4 Ipl H. all: show4. Qed.
+Proof.
+  intros i. intro4. step_inv H; pre Ipl; constructor.
+  (* w_reg, w_prereg: the cancel bit is not clear while a canceller is at work *)
+  all: try solve [intros _ Hc; cbn in Hc; exfalso; rewrite (Cb i) in Hc by congruence; discriminate Hc].
+  all: solve [cl4].
+Qed.
 
 Lemma inv4_ACnTake s s' : forall i, Inv1 s -> Inv2 s -> Inv3 s -> Inv4 s -> stepF s (ACnTake i) = Some s' -> Inv4 s'.
 Proof. intros i. intro4. step4 Ipl H. all: show4. Qed.
